@@ -189,15 +189,24 @@ fn zz_dec(u: u64) -> i64 {
 }
 
 keyed_shapes!(keys_u8, 10, tags::U8, u8, 1, |s| true, [s[0]], s[0]);
+#[cfg(not(verif_quick))]
 keyed_shapes!(keys_i8, 10, tags::I8, i8, 1, |s| true, [s[0]], s[0] as i8);
+#[cfg(not(verif_quick))]
 keyed_shapes!(keys_u16_short, 10, tags::U16, u16, 1, |s| true, [253], 253u16);
 keyed_shapes!(keys_u16_long, 12, tags::U16, u16, 3, |s| s[1] != 0, [255, s[0], s[1]], u16::from_le_bytes([s[0], s[1]]));
+#[cfg(not(verif_quick))]
 keyed_shapes!(keys_i16_long, 12, tags::I16, i16, 3, |s| s[1] != 0, [255, s[0], s[1]], zz_dec(u16::from_le_bytes([s[0], s[1]]) as u64) as i16);
+#[cfg(not(verif_quick))]
 keyed_shapes!(keys_u32_short, 10, tags::U32, u32, 1, |s| true, [251], 251u32);
+#[cfg(not(verif_quick))]
 keyed_shapes!(keys_u32_long, 14, tags::U32, u32, 5, |s| s[3] != 0, [255, s[0], s[1], s[2], s[3]], u32::from_le_bytes([s[0], s[1], s[2], s[3]]));
+#[cfg(not(verif_quick))]
 keyed_shapes!(keys_i32_long, 14, tags::I32, i32, 5, |s| s[3] != 0, [255, s[0], s[1], s[2], s[3]], zz_dec(u32::from_le_bytes([s[0], s[1], s[2], s[3]]) as u64) as i32);
+#[cfg(not(verif_quick))]
 keyed_shapes!(keys_u64_long, 18, tags::U64, u64, 9, |s| s[7] != 0, [255, s[0], s[1], s[2], s[3], s[4], s[5], s[6], s[7]], u64::from_le_bytes([s[0], s[1], s[2], s[3], s[4], s[5], s[6], s[7]]));
+#[cfg(not(verif_quick))]
 keyed_shapes!(keys_i64_long, 18, tags::I64, i64, 9, |s| s[7] != 0, [255, s[0], s[1], s[2], s[3], s[4], s[5], s[6], s[7]], zz_dec(u64::from_le_bytes([s[0], s[1], s[2], s[3], s[4], s[5], s[6], s[7]])));
+#[cfg(not(verif_quick))]
 keyed_shapes!(keys_uuid, 28, tags::Uuid, Uuid, 16, |s| true, s, Uuid::from_bytes(s));
 // String keys: decoding a string goes through `bytes::Bytes` -> `Vec<u8>` -> `String::from_utf8`,
 // which CBMC does not finish (12 GB); string keys are covered on the serializer side, by skip,
